@@ -6,8 +6,12 @@
      tools/cmd/globals2coq on every run): package jen has no package-level variable that any
      function writes, aliases or hands to a callee that could write it; no struct field of
      func type; no use of sync, sync/atomic, goroutines or channels; the package-level
-     variables are exactly the two read-only tables the model has (C09_no_mutable_globals,
-     C09_globals_are_the_modelled_tables);
+     variables are exactly the two read-only tables the model has, of the table types; no
+     write to, escape of or call through a package-level variable of ANOTHER package, only
+     stateless functions of other packages (C09_no_mutable_globals,
+     C09_globals_are_the_modelled_tables); the scan covered every .go file compiled with cgo
+     on or off, with or without -race, there is no assembly / C / object file, no bodiless
+     function, no go:linkname, and no import outside an allow-list (C09_whole_package_scanned);
    - about the MODEL (the case interpreter of Model/Exec.v, which is tied to the code by
      differential execution): every operation works on one File index; it leaves every
      other File of the world untouched and its result is a function of that File's state
@@ -44,15 +48,54 @@ Local Open Scope N_scope.
 
 (* ---- the source has no mutable global state (Tie A) ---- *)
 
+(* Decisions taken HERE and not in the translator (tools/cmd/globals2coq only reports). *)
+Definition mem (x : str) (l : list str) : bool := existsb (str_eqb x) l.
+
+(* A package-level variable may have a type whose values cannot reach shared memory (basic
+   types, strings, arrays and structs of those), or exactly the type of one of the two modelled
+   tables.  Types are printed with full package paths: a type called `string` declared in jen
+   is "github.com/dave/jennifer/jen.string".  A func, interface, channel or pointer typed
+   variable (a closure with hidden state, `var reserved = func() func(string) bool {..}()`) is
+   rejected whatever its occurrences look like. *)
+Definition table_types : list str := [S "map[string]string"; S "[]string"].
+Definition var_type_ok (v : str * (str * bool)) : bool :=
+  negb (snd (snd v)) || mem (fst (snd v)) table_types.
+
+(* What package jen may import.  Functions of the first group keep no state that one call can
+   leave for the next (what jen imports at 8235fd5 plus five packages of the same kind; their
+   package-level VARIABLES, e.g. unicode.Categories, are covered by foreign_vars); of package os
+   (environment, working directory, ... are process-wide state) only the listed functions may
+   be mentioned.  Any other import - "C", unsafe, reflect, runtime, sync, math/rand, an
+   in-module package such as github.com/dave/jennifer/jen/internal/x - is not scanned by
+   globals2coq and therefore needs a decision here. *)
+Definition stateless_imports : list str :=
+  [S "bytes"; S "fmt"; S "go/format"; S "io"; S "regexp"; S "sort"; S "strconv"; S "strings";
+   S "unicode"; S "unicode/utf8";
+   (* not imported today, equally stateless: a refactoring may start using them *)
+   S "errors"; S "math"; S "math/bits"; S "path"; S "unicode/utf16"].
+Definition allowed_imports : list str := stateless_imports ++ [S "os"].
+Definition allowed_funcs : list (str * str) := [(S "os", S "WriteFile")].
+Definition func_ok (f : str * str) : bool :=
+  mem (fst f) stateless_imports ||
+  existsb (fun g => str_eqb (fst f) (fst g) && str_eqb (snd f) (snd g)) allowed_funcs.
+
 (* Every package-level variable of package jen is read-only: no function assigns it or an
    element or field of it, increments it, appends to it, deletes from it, takes its address,
-   calls a pointer-receiver method on it, or passes / copies a value through which it could be
-   written; no type declared in jen has a field of func type (no hidden callback); nothing in
-   jen uses sync, sync/atomic, `go` or channels.  Adding a package-level alias counter or a
-   cache of rendered text makes this fail at coqc time. *)
+   calls it, calls a pointer-receiver method on it, or passes / copies a value through which it
+   could be written; its type is a table type or cannot reach shared memory (var_type_ok);
+   the same holds for every occurrence of a package-level variable of ANOTHER package
+   (unicode.Categories, io.EOF, os.Args: foreign_vars), and the package-level functions of
+   other packages that jen mentions are stateless ones (func_ok); no type declared in jen has a
+   field of func type (no hidden callback); nothing in jen uses sync, sync/atomic, `go` or
+   channels.  Adding a package-level alias counter or a cache of rendered text, or keeping the
+   counter in another package's map, makes this fail at coqc time. *)
 Theorem C09_no_mutable_globals :
   forallb (fun v => negb (snd v)) package_vars = true /\
-  func_fields = [] /\ global_sync = [] /\ globals_problems = [].
+  func_fields = [] /\ global_sync = [] /\ globals_problems = [] /\
+  map fst package_var_types = map fst package_vars /\
+  forallb var_type_ok package_var_types = true /\
+  forallb (fun v => negb (snd v)) foreign_vars = true /\
+  forallb func_ok foreign_funcs = true.
 Proof. vm_compute. repeat split; reflexivity. Qed.
 
 (* The package-level variables are exactly the two tables the model reads (Gen/Tables.v:
@@ -61,6 +104,23 @@ Theorem C09_globals_are_the_modelled_tables :
   forallb (fun v => existsb (str_eqb (fst v)) [S "standardLibraryHints"; S "reserved"]) package_vars = true /\
   init_funcs = [].
 Proof. vm_compute. split; reflexivity. Qed.
+
+(* The scan saw the whole package, under every way of building it.  globals2coq reads every
+   .go file of jen/ that is compiled with cgo on OR off, with OR without -race (for the GOOS /
+   GOARCH / toolchain ./check runs on); excluded_go_files are the non-test .go files left out
+   under at least one of these four configurations.  The only such file is verif_hooks.go
+   (tag verif, the read-only hooks of the harness): a `//go:build cgo` / `!cgo` or `race` /
+   `!race` pair of files, a file behind any other tag, a file for another platform
+   (x_windows.go, x_arm64.go) or an ignored file (_x.go) makes this fail and asks for a
+   decision.  There is no assembly, C, object or header file in jen/, no function without a
+   body and no go:linkname (state the Go scan cannot see), and jen imports nothing outside
+   allowed_imports (state in a package that is not scanned). *)
+Theorem C09_whole_package_scanned :
+  excluded_go_files = [S "verif_hooks.go"] /\
+  non_go_sources = [] /\
+  bodiless_funcs = [] /\
+  forallb (fun p => mem p allowed_imports) jen_imports = true.
+Proof. vm_compute. repeat split; reflexivity. Qed.
 
 (* ---- one operation ---- *)
 
